@@ -65,7 +65,9 @@ func c02Rules(p *Prog) *RuleSet {
 		Atoms: []AtomDef{
 			errNil("guid-read", "Session.GUID returned no error", named("fdo.TO2SessionState.GUID"), nil),
 			errNil("voucher-read", "the voucher for the session's GUID was fetched without error", named("fdo.VoucherPersistentState.Voucher"),
-				func(m *Matcher, _ ssa.CallInstruction, args []ssa.Value) bool { return len(args) == 3 && m.Prov(args[2]).HasX(guid) }),
+				func(m *Matcher, _ ssa.CallInstruction, args []ssa.Value) bool {
+					return len(args) == 3 && m.Prov(args[2]).HasX(guid)
+				}),
 			errNil("devkey-ok", "DevicePublicKey of that voucher returned no error", named("fdo.Voucher.DevicePublicKey"),
 				func(m *Matcher, _ ssa.CallInstruction, args []ssa.Value) bool { return m.Prov(args[0]).HasX(voucher) }),
 			boolTrue("eat-sig-true", "Sign1.Verify of the decoded ProveDevice token under the voucher's device key returned true", named("fdo/cose.Sign1.Verify"), 0, verifyArgs),
@@ -76,7 +78,9 @@ func c02Rules(p *Prog) *RuleSet {
 			equal("ueid-eq", "decoded EAT UEID claim equals RAND||Session.GUID",
 				provAnd(hasProvX("decoded:"), lacksProv(guid)), provAnd(hasProvX(guid), lacksProv("decoded:"))),
 			errNil("setparam-ok", "Session.SetParameter with the token's key-exchange parameter returned no error", named("fdo/kex.Session.SetParameter"),
-				func(m *Matcher, _ ssa.CallInstruction, args []ssa.Value) bool { return len(args) == 3 && decodedX(m, args[1]) }),
+				func(m *Matcher, _ ssa.CallInstruction, args []ssa.Value) bool {
+					return len(args) == 3 && decodedX(m, args[1])
+				}),
 			errNil("xsession-read", "the session's key-exchange state was read without error", named("fdo.TO2SessionState.XSession"), nil),
 			// type-60 responder
 			equal("owner-key-eq", "the configured owner key equals the voucher's current owner key",
@@ -159,12 +163,18 @@ func checkC02(c *Ctx, p *Prog, r *Result) {
 	// (4) type-60 responder
 	r.rule("C02.prove-ovhdr-gate", "the responder that issues the ProveDevice nonce signs and returns ProveOVHdr only after owner-key-eq, suite-valid and kex-available; Suite.New is reached only after suite-valid and kex-available")
 	r.floor("C02.prove-ovhdr-gate", 3)
-	for _, call := range f.CallSites(func(cal Callee, _ ssa.CallInstruction) bool { return cal.Name == "fdo.TO2SessionState.SetProveDeviceNonce" }) {
+	for _, call := range f.CallSites(func(cal Callee, _ ssa.CallInstruction) bool {
+		return cal.Name == "fdo.TO2SessionState.SetProveDeviceNonce"
+	}) {
 		fn := call.Parent()
 		r.requireAtReturns(f, "C02.prove-ovhdr-gate", fn, fn.Signature.Results().Len()-1, []Atom{"owner-key-eq", "suite-valid", "kex-available"})
-		signs := f.CallSites(func(cal Callee, c2 ssa.CallInstruction) bool { return cal.Name == "fdo/cose.Sign1.Sign" && c2.Parent() == fn })
+		signs := f.CallSites(func(cal Callee, c2 ssa.CallInstruction) bool {
+			return cal.Name == "fdo/cose.Sign1.Sign" && c2.Parent() == fn
+		})
 		r.requireAtSites(f, "C02.prove-ovhdr-gate", signs, []Atom{"owner-key-eq", "suite-valid", "kex-available"})
-		news := f.CallSites(func(cal Callee, c2 ssa.CallInstruction) bool { return cal.Name == "fdo/kex.Suite.New" && c2.Parent() == fn })
+		news := f.CallSites(func(cal Callee, c2 ssa.CallInstruction) bool {
+			return cal.Name == "fdo/kex.Suite.New" && c2.Parent() == fn
+		})
 		r.requireAtSites(f, "C02.prove-ovhdr-gate", news, []Atom{"suite-valid", "kex-available"})
 	}
 
@@ -199,14 +209,14 @@ func c02WhoMayCall(p *Prog, r *Result, f *Flow, prefix string) {
 	r.rule(rule, "in the region of (*TO2Server).Respond: ReplaceVoucher only under msg=70; OwnerModule.HandleInfo/ProduceInfo and ModuleStateMachine.Module/NextModule only under msg=68")
 	r.floor(rule, 5)
 	want := map[string]string{
-		"fdo.OwnerVoucherPersistentState.ReplaceVoucher":  "msg=70",
-		"fdo/serviceinfo.OwnerModule.HandleInfo":          "msg=68",
-		"fdo/serviceinfo.OwnerModule.ProduceInfo":         "msg=68",
-		"fdo/serviceinfo.ModuleStateMachine.Module":       "msg=68",
-		"fdo/serviceinfo.ModuleStateMachine.NextModule":   "msg=68",
-		"fdo/serviceinfo.ModulePersister.PersistModule":   "msg=68",
-		"fdo.TO2SessionState.SetReplacementHmac":          "msg=66",
-		"fdo.TO2SessionState.SetDevmod":                   "msg=68",
+		"fdo.OwnerVoucherPersistentState.ReplaceVoucher": "msg=70",
+		"fdo/serviceinfo.OwnerModule.HandleInfo":         "msg=68",
+		"fdo/serviceinfo.OwnerModule.ProduceInfo":        "msg=68",
+		"fdo/serviceinfo.ModuleStateMachine.Module":      "msg=68",
+		"fdo/serviceinfo.ModuleStateMachine.NextModule":  "msg=68",
+		"fdo/serviceinfo.ModulePersister.PersistModule":  "msg=68",
+		"fdo.TO2SessionState.SetReplacementHmac":         "msg=66",
+		"fdo.TO2SessionState.SetDevmod":                  "msg=68",
 	}
 	var names []string
 	for n := range want {
